@@ -119,22 +119,22 @@ theorem digest_valid {h : Hash} (hH : ∀ b, (h.H b).Valid) {e : Env} (hw : WF h
 
 /-! ### subject / assertions -/
 
-theorem subject_wf {h : Hash} {e : Env} (hw : WF h e) : WF h e.subject := by
+theorem wf_subject {h : Hash} {e : Env} (hw : WF h e) : WF h e.subject := by
   cases e <;> simp_all [Env.subject]
 
-theorem subject_canon {e : Env} (hc : Canon e) : Canon e.subject := by
+theorem canon_subject {e : Env} (hc : Canon e) : Canon e.subject := by
   cases e <;> simp_all [Env.subject]
 
-theorem assertions_wf {h : Hash} {e : Env} (hw : WF h e) : WFList h e.assertions := by
+theorem wf_assertions {h : Hash} {e : Env} (hw : WF h e) : WFList h e.assertions := by
   cases e <;> simp_all [Env.assertions]
 
-theorem assertions_canon {e : Env} (hc : Canon e) : CanonList e.assertions := by
+theorem canon_assertions {e : Env} (hc : Canon e) : CanonList e.assertions := by
   cases e <;> simp_all [Env.assertions]
 
-theorem assertions_asc {e : Env} (hc : Canon e) : AscDigests e.assertions := by
+theorem canon_assertions_asc {e : Env} (hc : Canon e) : AscDigests e.assertions := by
   cases e <;> simp_all [Env.assertions, AscDigests]
 
-theorem assertions_slotOk {e : Env} (hc : Canon e) : ∀ a ∈ e.assertions, a.slotOk = true := by
+theorem canon_assertions_slotOk {e : Env} (hc : Canon e) : ∀ a ∈ e.assertions, a.slotOk = true := by
   cases e <;> simp_all [Env.assertions]
 
 /-! ### `mkNode`, `newNodeUnchecked`, `newNode` -/
@@ -214,5 +214,483 @@ theorem newNode_ok {s : Env} {as : List Env} {r : Env} :
     · intro hx; exact absurd hx.1 hall
 
 end
+
+
+/-! ### slots -/
+
+@[simp] theorem slotOk_node (s : Env) (as : List Env) (d : Digest) :
+    (Env.node s as d).slotOk = s.slotOk := by
+  simp [slotOk, isSubjectObscured, isSubjectAssertion, isSubjectElided, isSubjectEncrypted,
+    isSubjectCompressed]
+@[simp] theorem slotOk_assertion (p o : Env) (d : Digest) : (Env.assertion p o d).slotOk = true := by
+  simp [slotOk, isSubjectAssertion]
+@[simp] theorem slotOk_elided (d : Digest) : (Env.elided d).slotOk = true := by
+  simp [slotOk, isSubjectObscured, isSubjectElided]
+@[simp] theorem slotOk_encrypted (m : EncMsg) (d : Digest) : (Env.encrypted m d).slotOk = true := by
+  simp [slotOk, isSubjectObscured, isSubjectEncrypted]
+@[simp] theorem slotOk_compressed (c : CompMsg) (d : Digest) : (Env.compressed c d).slotOk = true := by
+  simp [slotOk, isSubjectObscured, isSubjectCompressed]
+@[simp] theorem slotOk_leaf (c : Cbor) (d : Digest) : (Env.leaf c d).slotOk = false := by
+  simp [slotOk, isSubjectObscured, isSubjectAssertion, isSubjectElided, isSubjectEncrypted,
+    isSubjectCompressed]
+@[simp] theorem slotOk_knownValue (v : Nat) (d : Digest) : (Env.knownValue v d).slotOk = false := by
+  simp [slotOk, isSubjectObscured, isSubjectAssertion, isSubjectElided, isSubjectEncrypted,
+    isSubjectCompressed]
+@[simp] theorem slotOk_wrapped (e : Env) (d : Digest) : (Env.wrapped e d).slotOk = false := by
+  simp [slotOk, isSubjectObscured, isSubjectAssertion, isSubjectElided, isSubjectEncrypted,
+    isSubjectCompressed]
+
+@[simp] theorem slotOk_mkNode (h : Hash) (s : Env) (as : List Env) : (mkNode h s as).slotOk = s.slotOk := by
+  simp [mkNode]
+
+/-! ### what `obscure` returns -/
+
+section
+variable (h : Hash) (A : Aead) (Z : Deflate)
+
+/-- the shape of a successful `compress` -/
+theorem compress_ok {e r : Env} (hr : compress Z e = .ok r) : ∃ c, r = .compressed c e.digest := by
+  unfold compress at hr
+  split at hr
+  all_goals first
+    | (injection hr with hr; subst hr; exact ⟨_, rfl⟩)
+    | cases hr
+
+/-- the shape of a successful `newEncryptedUnwrap` -/
+theorem newEncryptedUnwrap_ok {m : EncMsg} {site : String} {r : Env}
+    (hr : newEncryptedUnwrap m site = .ok r) : ∃ d, r = .encrypted m d ∧ m.optDigest = some d := by
+  unfold newEncryptedUnwrap at hr
+  split at hr
+  · rename_i d hd; injection hr with hr; exact ⟨d, hr.symm, hd⟩
+  · cases hr
+
+/-- `compress` refuses exactly the elided and encrypted elements -/
+theorem compress_err {e : Env} {x : String} (hr : compress Z e = .err x) : e.isObscured = true := by
+  unfold compress at hr
+  split at hr
+  all_goals first
+    | (simp [isObscured, isElided, isEncrypted, isCompressed]; done)
+    | cases hr
+
+theorem compress_no_panic {e : Env} {x : String} : compress Z e ≠ .panic x := by
+  unfold compress
+  split <;> simp
+
+/-- a successful `obscure` returns an elided / encrypted / compressed element; the elided
+and compressed ones declare the digest of the original, the encrypted one the digest its
+`aad` decodes to; the `compress` action leaves an element that cannot be compressed
+(elided or encrypted) as it is -/
+theorem obscure_ok {act : Action} {e r : Env} (hr : obscure A Z act e = .ok r) :
+    r = .elided e.digest ∨ (∃ m d, r = .encrypted m d ∧ m.optDigest = some d) ∨
+      (∃ c, r = .compressed c e.digest) ∨ (r = e ∧ e.isObscured = true) := by
+  unfold obscure at hr
+  split at hr
+  · injection hr with hr; subst hr
+    left; unfold elide; split <;> rfl
+  · obtain ⟨d, h1, h2⟩ := newEncryptedUnwrap_ok hr
+    exact .inr (.inl ⟨_, d, h1, h2⟩)
+  · split at hr
+    · rename_i c hc
+      injection hr with hr; subst hr
+      exact .inr (.inr (.inl (compress_ok Z hc)))
+    · rename_i x hx
+      first
+        | (injection hr with hr; subst hr; exact .inr (.inr (.inr ⟨rfl, compress_err Z hx⟩)))
+        | cases hr
+    · cases hr
+
+theorem obscure_wf {act : Action} {e r : Env} (hw : WF h e) (hr : obscure A Z act e = .ok r) :
+    WF h r := by
+  rcases obscure_ok A Z hr with rfl | ⟨m, d, rfl, hm⟩ | ⟨c, rfl⟩ | ⟨rfl, _⟩ <;> simp [*]
+
+theorem obscure_canon {act : Action} {e r : Env} (hv : e.digest.Valid) (hc : Canon e)
+    (hr : obscure A Z act e = .ok r) : Canon r := by
+  rcases obscure_ok A Z hr with rfl | ⟨m, d, rfl, hm⟩ | ⟨c, rfl⟩ | ⟨rfl, _⟩
+  · simpa using hv
+  · simpa using optDigest_valid hm
+  · simpa using hv
+  · exact hc
+
+theorem isObscured_slotOk {e : Env} (ho : e.isObscured = true) : e.slotOk = true := by
+  cases e <;> simp_all [isObscured, isElided, isEncrypted, isCompressed]
+
+theorem obscure_isObscured {act : Action} {e r : Env} (hr : obscure A Z act e = .ok r) :
+    r.isObscured = true := by
+  rcases obscure_ok A Z hr with rfl | ⟨m, d, rfl, hm⟩ | ⟨c, rfl⟩ | ⟨rfl, ho⟩ <;>
+    simp_all [isObscured, isElided, isEncrypted, isCompressed]
+
+theorem obscure_slotOk {act : Action} {e r : Env} (hr : obscure A Z act e = .ok r) :
+    r.slotOk = true := isObscured_slotOk (obscure_isObscured A Z hr)
+
+end
+
+/-! ### the obscuring traversal -/
+
+section
+variable (h : Hash) (A : Aead) (Z : Deflate)
+
+/-- the list traversal keeps the digest sequence (it panics otherwise) -/
+theorem elideSetList_digests (T : Digest → Bool) (rev : Bool) (act : Action) :
+    ∀ (as rs : List Env), elideSetList h A Z T rev act as = .ok rs →
+      rs.map Env.digest = as.map Env.digest := by
+  intro as
+  induction as with
+  | nil => intro rs hr; simp only [elideSetList] at hr; injection hr with hr; subst hr; rfl
+  | cons a as ih =>
+    intro rs hr
+    simp only [elideSetList] at hr
+    split at hr
+    · rename_i a' ha'
+      split at hr
+      · cases hr
+      · rename_i hd
+        split at hr
+        · rename_i as' has'
+          injection hr with hr; subst hr
+          simp only [bne_iff_ne, ne_eq, Decidable.not_not] at hd
+          simp [hd, ih as' has']
+        · cases hr
+        · cases hr
+    · cases hr
+    · cases hr
+
+
+/-- closes the five leaf-like cases of `elideSet` -/
+theorem elideSet_wf_atom {T : Digest → Bool} {rev : Bool} {act : Action} {e r : Env}
+    (hw : WF h e) (hr : (if (T e.digest != rev) = true then obscure A Z act e else .ok e) = .ok r) :
+    WF h r := by
+  split at hr
+  · exact obscure_wf h A Z hw hr
+  · injection hr with hr; subst hr; exact hw
+
+
+
+theorem elideSet_slotOk_atom {T : Digest → Bool} {rev : Bool} {act : Action} {e r : Env}
+    (hw : e.slotOk = true)
+    (hr : (if (T e.digest != rev) = true then obscure A Z act e else .ok e) = .ok r) :
+    r.slotOk = true := by
+  split at hr
+  · exact obscure_slotOk A Z hr
+  · injection hr with hr; subst hr; exact hw
+
+/-- an assertion slot stays an assertion slot under the obscuring traversal -/
+theorem elideSet_slotOk (T : Digest → Bool) (rev : Bool) (act : Action) :
+    (e r : Env) → e.slotOk = true → elideSet h A Z T rev act e = .ok r → r.slotOk = true
+  | .assertion p o d, r, _, hr => by
+    simp only [elideSet] at hr
+    split at hr
+    · exact obscure_slotOk A Z hr
+    · split at hr
+      · split at hr
+        · split at hr
+          · injection hr with hr; subst hr; simp [newAssertion]
+          · cases hr
+        · cases hr
+        · cases hr
+      · cases hr
+      · cases hr
+  | .node s as d, r, hw, hr => by
+    simp only [elideSet] at hr
+    split at hr
+    · exact obscure_slotOk A Z hr
+    · split at hr
+      · rename_i s' hs'
+        split at hr
+        · cases hr
+        · split at hr
+          · obtain ⟨_, rfl⟩ := (newNodeUnchecked_ok h).1 hr
+            simp only [slotOk_node] at hw
+            simpa using elideSet_slotOk T rev act s s' hw hs'
+          · cases hr
+          · cases hr
+      · cases hr
+      · cases hr
+  | .wrapped e d, r, hw, _ => by simp at hw
+  | .leaf c d, r, hw, _ => by simp at hw
+  | .knownValue v d, r, hw, _ => by simp at hw
+  | .elided d, r, hw, hr => by simp only [elideSet] at hr; exact elideSet_slotOk_atom A Z hw hr
+  | .encrypted m d, r, hw, hr => by simp only [elideSet] at hr; exact elideSet_slotOk_atom A Z hw hr
+  | .compressed c d, r, hw, hr => by simp only [elideSet] at hr; exact elideSet_slotOk_atom A Z hw hr
+
+theorem elideSetList_slotOk (T : Digest → Bool) (rev : Bool) (act : Action) :
+    ∀ (as rs : List Env), (∀ a ∈ as, a.slotOk = true) → elideSetList h A Z T rev act as = .ok rs →
+      ∀ r ∈ rs, r.slotOk = true := by
+  intro as
+  induction as with
+  | nil => intro rs _ hr; simp only [elideSetList] at hr; injection hr with hr; subst hr; simp
+  | cons a as ih =>
+    intro rs hs hr
+    simp only [elideSetList] at hr
+    split at hr
+    · rename_i a' ha'
+      split at hr
+      · cases hr
+      · split at hr
+        · rename_i as' has'
+          injection hr with hr; subst hr
+          intro r hmem
+          rcases List.mem_cons.1 hmem with rfl | hmem
+          · exact elideSet_slotOk h A Z T rev act a _ (hs a (by simp)) ha'
+          · exact ih as' (fun x hx => hs x (by simp [hx])) has' r hmem
+        · cases hr
+        · cases hr
+    · cases hr
+    · cases hr
+
+theorem elideSet_canon_atom {T : Digest → Bool} {rev : Bool} {act : Action} {e r : Env}
+    (hv : e.digest.Valid) (hc : Canon e)
+    (hr : (if (T e.digest != rev) = true then obscure A Z act e else .ok e) = .ok r) :
+    Canon r := by
+  split at hr
+  · exact obscure_canon A Z hv hc hr
+  · injection hr with hr; subst hr; exact hc
+
+
+end
+
+/-! ### folds of fallible steps -/
+
+theorem Res.bind_eq_ok {α β} {r : Res α} {f : α → Res β} {y : β} :
+    r.bind f = .ok y ↔ ∃ x, r = .ok x ∧ f x = .ok y := by
+  cases r <;> simp [Res.bind]
+
+/-- invariant of a `foldl` of fallible steps -/
+theorem foldl_bind_inv {P Q : Env → Prop} (step : Env → Env → Res Env)
+    (hstep : ∀ x a r, P x → Q a → step x a = .ok r → P r) :
+    ∀ (as : List Env) (init : Res Env) (r : Env), (∀ x, init = .ok x → P x) → (∀ a ∈ as, Q a) →
+      as.foldl (fun acc a => acc.bind fun x => step x a) init = .ok r → P r := by
+  intro as
+  induction as with
+  | nil => intro init r hi _ hr; exact hi r hr
+  | cons a as ih =>
+    intro init r hi hq hr
+    simp only [List.foldl_cons] at hr
+    refine ih _ r ?_ (fun b hb => hq b (by simp [hb])) hr
+    intro x hx
+    obtain ⟨x0, h0, h1⟩ := Res.bind_eq_ok.1 hx
+    exact hstep x0 a x (hi x0 h0) (hq a (by simp)) h1
+
+theorem distinct_append_singleton {as : List Env} {a : Env} (hs : AscDigests as)
+    (hn : as.any (fun x => x.digest == a.digest) = false) : DistinctDigests (as ++ [a]) := by
+  unfold DistinctDigests
+  rw [List.pairwise_append]
+  refine ⟨hs.distinct, by simp, ?_⟩
+  intro x hx y hy
+  simp only [List.mem_singleton] at hy; subst hy
+  intro heq
+  have : as.any (fun x => x.digest == y.digest) = true :=
+    List.any_eq_true.2 ⟨x, hx, by simp [heq]⟩
+  rw [hn] at this; cases this
+
+
+/-! ### the operation language -/
+
+/-- the public operations with their arguments; the receiver is the current envelope -/
+inductive Op where
+  | addAssertion (a : Env)
+  | removeAssertion (target : Env)
+  | replaceAssertion (a b : Env)
+  | replaceSubject (s : Env)
+  | addAll (as : List Env)
+  | assertionWithObject (o : Env)          -- `Envelope::new_assertion(receiver, o)`
+  | assertionWithPredicate (p : Env)       -- `Envelope::new_assertion(p, receiver)`
+  | wrap
+  | unwrap
+  | subject
+  | elide
+  | elideSet (T : Digest → Bool) (revealing : Bool) (act : Action)
+  | compress
+  | compressSubject
+  | encryptSubject (key nonce : Bytes)
+  | encryptWhole (key nonce : Bytes)
+  | unelide (original : Env)               -- the receiver is the placeholder
+  -- operations that decode bytes
+  | decodeBytes (b : Bytes)                -- ignores the receiver
+  | reencode                               -- `decode (encode receiver)`
+  | uncompress
+  | uncompressSubject
+  | decryptSubject (key : Bytes)
+  | decryptWhole (key : Bytes)
+
+/-- the envelope arguments of an operation -/
+def Op.args : Op → List Env
+  | .addAssertion a => [a]
+  | .removeAssertion t => [t]
+  | .replaceAssertion a b => [a, b]
+  | .replaceSubject s => [s]
+  | .addAll as => as
+  | .assertionWithObject o => [o]
+  | .assertionWithPredicate p => [p]
+  | .unelide o => [o]
+  | _ => []
+
+/-- does the operation run the envelope decoder -/
+def Op.decoding : Op → Bool
+  | .decodeBytes _ | .reencode | .uncompress | .uncompressSubject | .decryptSubject _
+  | .decryptWhole _ => true
+  | _ => false
+
+section
+variable (h : Hash) (A : Aead) (Z : Deflate)
+
+def applyOp : Op → Env → Res Env
+  | .addAssertion a, e => addAssertionEnvelope h e a
+  | .removeAssertion t, e => removeAssertion h e t
+  | .replaceAssertion a b, e => replaceAssertion h e a b
+  | .replaceSubject s, e => replaceSubject h e s
+  | .addAll as, e => addAll h e as
+  | .assertionWithObject o, e => .ok (newAssertion h e o)
+  | .assertionWithPredicate p, e => .ok (newAssertion h p e)
+  | .wrap, e => .ok (wrap h e)
+  | .unwrap, e => unwrap e
+  | .subject, e => .ok e.subject
+  | .elide, e => .ok (elide e)
+  | .elideSet T rev act, e => elideSet h A Z T rev act e
+  | .compress, e => compress Z e
+  | .compressSubject, e => compressSubject h Z e
+  | .encryptSubject key nonce, e => encryptSubject h A key nonce e
+  | .encryptWhole key nonce, e => encryptWhole h A key nonce e
+  | .unelide o, e => unelide e o
+  | .decodeBytes b, _ => decode h b
+  | .reencode, e => decode h (encode e)
+  | .uncompress, e => uncompress h Z e
+  | .uncompressSubject, e => uncompressSubject h Z e
+  | .decryptSubject key, e => decryptSubject h A key e
+  | .decryptWhole key, e => decryptWhole h A key e
+
+/-- the results of running a history from `e`: one entry per executed step, the run stops
+at the first step that does not return an envelope -/
+def runHistory (e : Env) : List Op → List (Res Env)
+  | [] => []
+  | o :: os =>
+    match applyOp h A Z o e with
+    | .ok r => .ok r :: runHistory r os
+    | x => [x]
+
+/-- everything the library can produce: closed under the constructors and the operations,
+arguments included (`dec = false` excludes the operations that run the decoder) -/
+inductive Produced (dec : Bool) : Env → Prop
+  | leaf (c : Cbor) : Produced dec (newLeaf h c)
+  | knownValue (v : Nat) : Produced dec (newKnownValue h v)
+  | elided (d : Digest) : d.Valid → Produced dec (newElided d)
+  | op (o : Op) (e r : Env) : Produced dec e → (∀ a ∈ o.args, Produced dec a) →
+      (dec = false → o.decoding = false) → applyOp h A Z o e = .ok r → Produced dec r
+
+end
+
+/-! ### forgetting the cached digests -/
+
+mutual
+/-- the content of an envelope: cached digests of node / leaf / wrapped / assertion /
+known value are forgotten, declared digests of elided / encrypted / compressed are kept -/
+def erase : Env → Env
+  | .node s as _ => .node (erase s) (eraseList as) ⟨0⟩
+  | .leaf c _ => .leaf c ⟨0⟩
+  | .wrapped e _ => .wrapped (erase e) ⟨0⟩
+  | .assertion p o _ => .assertion (erase p) (erase o) ⟨0⟩
+  | .elided d => .elided d
+  | .knownValue v _ => .knownValue v ⟨0⟩
+  | .encrypted m d => .encrypted m d
+  | .compressed c d => .compressed c d
+def eraseList : List Env → List Env
+  | [] => []
+  | a :: as => erase a :: eraseList as
+end
+
+/-! ### elements of an invariant-satisfying envelope satisfy the invariant -/
+
+section
+variable (h : Hash)
+
+mutual
+theorem mem_elements_wf : (e x : Env) → WF h e → x ∈ elements e → WF h x
+  | .node s as d, x, hw, hx => by
+    simp only [elements, List.mem_cons, List.mem_append] at hx
+    rcases hx with rfl | hx | hx
+    · exact hw
+    · exact mem_elements_wf s x ((WF_node h _ _ _).1 hw).1 hx
+    · exact mem_elementsList_wf as x ((WF_node h _ _ _).1 hw).2.1 hx
+  | .wrapped e d, x, hw, hx => by
+    simp only [elements, List.mem_cons] at hx
+    rcases hx with rfl | hx
+    · exact hw
+    · exact mem_elements_wf e x ((WF_wrapped h _ _).1 hw).1 hx
+  | .assertion p o d, x, hw, hx => by
+    simp only [elements, List.mem_cons, List.mem_append] at hx
+    rcases hx with rfl | hx | hx
+    · exact hw
+    · exact mem_elements_wf p x ((WF_assertion h _ _ _).1 hw).1 hx
+    · exact mem_elements_wf o x ((WF_assertion h _ _ _).1 hw).2.1 hx
+  | .leaf c d, x, hw, hx => by simp only [elements, List.mem_singleton] at hx; subst hx; exact hw
+  | .elided d, x, hw, hx => by simp only [elements, List.mem_singleton] at hx; subst hx; exact hw
+  | .knownValue v d, x, hw, hx => by simp only [elements, List.mem_singleton] at hx; subst hx; exact hw
+  | .encrypted m d, x, hw, hx => by simp only [elements, List.mem_singleton] at hx; subst hx; exact hw
+  | .compressed c d, x, hw, hx => by simp only [elements, List.mem_singleton] at hx; subst hx; exact hw
+theorem mem_elementsList_wf : (as : List Env) → (x : Env) → WFList h as → x ∈ elementsList as → WF h x
+  | [], x, _, hx => by simp [elementsList] at hx
+  | a :: as, x, hw, hx => by
+    simp only [elementsList, List.mem_append] at hx
+    rcases hx with hx | hx
+    · exact mem_elements_wf a x ((WFList_cons h _ _).1 hw).1 hx
+    · exact mem_elementsList_wf as x ((WFList_cons h _ _).1 hw).2 hx
+end
+
+end
+
+mutual
+theorem mem_elements_canon : (e x : Env) → Canon e → x ∈ elements e → Canon x
+  | .node s as d, x, hw, hx => by
+    simp only [elements, List.mem_cons, List.mem_append] at hx
+    rcases hx with rfl | hx | hx
+    · exact hw
+    · exact mem_elements_canon s x ((Canon_node _ _ _).1 hw).1 hx
+    · exact mem_elementsList_canon as x ((Canon_node _ _ _).1 hw).2.1 hx
+  | .wrapped e d, x, hw, hx => by
+    simp only [elements, List.mem_cons] at hx
+    rcases hx with rfl | hx
+    · exact hw
+    · exact mem_elements_canon e x ((Canon_wrapped _ _).1 hw) hx
+  | .assertion p o d, x, hw, hx => by
+    simp only [elements, List.mem_cons, List.mem_append] at hx
+    rcases hx with rfl | hx | hx
+    · exact hw
+    · exact mem_elements_canon p x ((Canon_assertion _ _ _).1 hw).1 hx
+    · exact mem_elements_canon o x ((Canon_assertion _ _ _).1 hw).2 hx
+  | .leaf c d, x, hw, hx => by simp only [elements, List.mem_singleton] at hx; subst hx; exact hw
+  | .elided d, x, hw, hx => by simp only [elements, List.mem_singleton] at hx; subst hx; exact hw
+  | .knownValue v d, x, hw, hx => by simp only [elements, List.mem_singleton] at hx; subst hx; exact hw
+  | .encrypted m d, x, hw, hx => by simp only [elements, List.mem_singleton] at hx; subst hx; exact hw
+  | .compressed c d, x, hw, hx => by simp only [elements, List.mem_singleton] at hx; subst hx; exact hw
+theorem mem_elementsList_canon : (as : List Env) → (x : Env) → CanonList as → x ∈ elementsList as → Canon x
+  | [], x, _, hx => by simp [elementsList] at hx
+  | a :: as, x, hw, hx => by
+    simp only [elementsList, List.mem_append] at hx
+    rcases hx with hx | hx
+    · exact mem_elements_canon a x ((CanonList_cons _ _).1 hw).1 hx
+    · exact mem_elementsList_canon as x ((CanonList_cons _ _).1 hw).2 hx
+end
+
+
+/-! ### serialisation helpers, one-level recomputation -/
+
+theorem cborOfList_eq_map (as : List Env) : cborOfList as = as.map cborOf := by
+  induction as with
+  | nil => simp [cborOfList]
+  | cons a as ih => simp [cborOfList, ih]
+
+/-- the digest recomputed from the immediate children of an element (from the digests
+they report), resp. the declared digest of an obscured element -/
+def recompute (h : Hash) : Env → Digest
+  | .node s as _ => h.ofDigests (s.digest :: as.map Env.digest)
+  | .leaf c _ => h.H c.enc
+  | .wrapped e _ => h.ofDigests [e.digest]
+  | .assertion p o _ => h.ofDigests [p.digest, o.digest]
+  | .elided d => d
+  | .knownValue v _ => h.H (knownValueCbor v).enc
+  | .encrypted m d => m.optDigest.getD d
+  | .compressed _ d => d
+
+theorem wf_recompute {h : Hash} {e : Env} (hw : WF h e) : e.digest = recompute h e := by
+  cases e <;> simp_all [recompute, Env.digest]
 
 end EnvVerif
